@@ -4,6 +4,7 @@ import MidnightZK.Model.C20.Group
 import MidnightZK.Model.C20.Gadget
 import MidnightZK.Model.C01.Parse
 import MidnightZK.Model.C20.AccIO
+import MidnightZK.Model.C20.VerifyIO
 /-! Line-protocol handler of property C20. -/
 namespace MidnightZK.C20.Driver
 open MidnightZK MidnightZK.C20
@@ -85,6 +86,7 @@ def answer (line : String) : String :=
   | "msm-collapse" :: _ => accAnswer (words line)
   | "acc-accumulate" :: _ => accAnswer (words line)
   | "gadget-sched" :: rest => gadgetAnswer "gadget-sched" rest
+  | "gadget-verify" :: rest => (V.answerVerify rest).getD "bad-op"
   | "gadget-prooflen" :: rest => gadgetAnswer "gadget-prooflen" rest
   | ["ipa-sched", side, len] =>
     match len.toNat? with
